@@ -1,7 +1,7 @@
 (* Proofs for Model/RoutineAst.v: Core's composite steps ARE the interpretation of the expected routine programs. *)
 From Coq Require Import List Arith Bool PeanoNat String Lia.
 Import ListNotations.
-Require Import TL.Model.Core TL.Model.RoutineAst.
+Require Import TL.Model.Core TL.Model.CoreLate TL.Proofs.CoreMono TL.Proofs.CoreHash TL.Proofs.CoreLate TL.Model.RoutineAst.
 
 (* ------------------------------------------------------------------ decidable equality is equality *)
 Lemma tlist_eqb_eq : forall a b, tlist_eqb a b = true -> a = b.
@@ -66,7 +66,7 @@ Variable rt : runtime.
 Context {A : Type}.
 Variable key : A -> pv.
 
-(* Core's order: convert everything, then hash *)
+(* the earlier order of Core (Model/CoreLate.v): convert everything, then hash *)
 Definition eager (l : list (res A)) : res (list A) :=
   bind (sequence l) (fun xs => if existsb (fun a => unhashable rt (key a)) xs then Raise EType else Ok xs).
 
@@ -105,6 +105,14 @@ Proof.
   - rewrite (IH H). unfold eager. rewrite bind_assoc.
     destruct (sequence l) as [xs|e| |]; simpl; try reflexivity.
     destruct (existsb (fun a0 => unhashable rt (key a0)) xs); reflexivity.
+Qed.
+
+(* the generator consumed by a hashing constructor IS Core's hashing conversion of the members *)
+Lemma consume_mapM : forall X (f : X -> res A) l, consume_hashing rt key (map f l) = mapM (hashing rt key f) l.
+Proof.
+  induction l as [|x l IH]; simpl; [reflexivity|]. unfold hashing at 1, hash_check.
+  destruct (f x) as [a|e| |]; simpl; try reflexivity.
+  destruct (unhashable rt (key a)); simpl; [reflexivity|]. rewrite IH. reflexivity.
 Qed.
 
 (* ... and inside late_hash the code raises TypeError while convert-then-hash reports the later failure *)
@@ -163,34 +171,30 @@ Ltac dres r := destruct r as [?|?| |]; simpl; try reflexivity.
 Tactic Notation "dresn" constr(r) ident(n) := destruct r as [n|?| |]; simpl; try reflexivity.
 
 (* ---- unmarshal ---- *)
-Lemma unm_iterable : forall n k a x, guard_u rt E (unm rt E n) (TSeq k a) x = true ->
+Lemma unm_iterable : forall n k a x,
   run rt E (unm rt E n) (TSeq k a) (expected DU HIterable) x = unm rt E (S n) (TSeq k a) x.
 Proof.
-  intros n k a x G. unfold run. simpl. unfold guard_u, after_load_values in G.
-  dresn (load rt x) d. dresn (itervalues rt d) l. rewrite mapM_sequence.
+  intros n k a x. unfold run. simpl.
+  dresn (load rt x) d. dresn (itervalues rt d) l.
   destruct k; simpl.
-  - dres (sequence (map (unm rt E n a) l)).
-  - dres (sequence (map (unm rt E n a) l)).
-  - apply negb_true_iff in G. rewrite (consume_eager rt (fun v => v) _ G). unfold eager.
-    dresn (sequence (map (unm rt E n a) l)) l0. destruct (existsb _ l0); reflexivity.
-  - apply negb_true_iff in G. rewrite (consume_eager rt (fun v => v) _ G). unfold eager.
-    dresn (sequence (map (unm rt E n a) l)) l0. destruct (existsb _ l0); reflexivity.
-  - dres (sequence (map (unm rt E n a) l)).
+  - unfold elem_conv; simpl. rewrite mapM_sequence. dres (sequence (map (unm rt E n a) l)).
+  - unfold elem_conv; simpl. rewrite mapM_sequence. dres (sequence (map (unm rt E n a) l)).
+  - rewrite (construct_seq_after rt KSet). rewrite (elem_conv_hashes rt KSet) by reflexivity.
+    rewrite (consume_mapM rt (fun v => v)). simpl.
+    dres (mapM (hashing rt (fun v => v) (unm rt E n a)) l).
+  - rewrite (construct_seq_after rt KFrozenset). rewrite (elem_conv_hashes rt KFrozenset) by reflexivity.
+    rewrite (consume_mapM rt (fun v => v)). simpl.
+    dres (mapM (hashing rt (fun v => v) (unm rt E n a)) l).
+  - unfold elem_conv; simpl. rewrite mapM_sequence. dres (sequence (map (unm rt E n a) l)).
 Qed.
 
-Lemma kv_map_eq : forall (sem : ty -> pv -> res pv) kt vt l,
-  mapM (fun kv => bind (sem kt (fst kv)) (fun k' => bind (sem vt (snd kv)) (fun v' => Ok (k', v')))) l
-  = sequence (map (kv_apply sem kt vt) l).
-Proof. intros. rewrite mapM_sequence. reflexivity. Qed.
-
-Lemma unm_mapping : forall n k kt vt x, guard_u rt E (unm rt E n) (TMap k kt vt) x = true ->
+Lemma unm_mapping : forall n k kt vt x,
   run rt E (unm rt E n) (TMap k kt vt) (expected DU HMapping) x = unm rt E (S n) (TMap k kt vt) x.
 Proof.
-  intros n k kt vt x G. unfold run. simpl. unfold guard_u, after_load_items, after_items in G.
-  dresn (load rt x) d. dresn (iteritems rt E d) l. rewrite kv_map_eq.
-  apply negb_true_iff in G. rewrite (consume_eager rt fst _ G). unfold eager, construct_map.
-  dresn (sequence (map (kv_apply (unm rt E n) kt vt) l)) l0.
-  destruct (existsb _ l0); reflexivity.
+  intros n k kt vt x. unfold run. simpl.
+  dresn (load rt x) d. dresn (iteritems rt E d) l.
+  rewrite (construct_map_after rt k). rewrite (consume_mapM rt fst). unfold kv_apply.
+  dres (mapM (hashing rt fst (fun kv => bind (unm rt E n kt (fst kv)) (fun k' => bind (unm rt E n vt (snd kv)) (fun v' => Ok (k', v'))))) l).
 Qed.
 
 Lemma unm_tuple : forall n ts x,
@@ -224,12 +228,12 @@ Proof.
   - dres (first_ok rt (map (unm rt E n) ts) x).
 Qed.
 
-Theorem unm_step : forall n t x h, head_of E t = Some h -> guard_u rt E (unm rt E n) t x = true ->
+Theorem unm_step : forall n t x h, head_of E t = Some h -> guard_u E t = true ->
   run rt E (unm rt E n) t (expected DU h) x = unm rt E (S n) t x.
 Proof.
   intros n t x h H G. destruct t; simpl in H; try discriminate; try (injection H as <-).
-  - apply unm_iterable; exact G.
-  - apply unm_mapping; exact G.
+  - apply unm_iterable.
+  - apply unm_mapping.
   - apply unm_tuple.
   - apply unm_union.
   - destruct (E n0) as [[cd|t']|] eqn:EC; try discriminate. injection H as <-.
@@ -243,42 +247,6 @@ Proof.
     unfold guard_u in G. rewrite C in G. rewrite (unm_struct_at n _ _ _ x C G). simpl. rewrite EC. reflexivity.
 Qed.
 
-(* the guard is exact for sets and mappings: outside it the CODE raises TypeError, Core something else *)
-Lemma unm_iterable_outside : forall n k a x, (k = KSet \/ k = KFrozenset) ->
-  guard_u rt E (unm rt E n) (TSeq k a) x = false ->
-  run rt E (unm rt E n) (TSeq k a) (expected DU HIterable) x = Raise EType /\
-  unm rt E (S n) (TSeq k a) x <> Raise EType.
-Proof.
-  intros n k a x K G. unfold run. simpl.
-  assert (G' : after_load_values rt x (fun vs => negb (late_hash rt (fun v => v) false (map (unm rt E n a) vs))) = false)
-    by (destruct K; subst k; exact G).
-  clear G. unfold after_load_values in G'.
-  destruct (load rt x) as [d|?| |]; simpl; try discriminate.
-  destruct (itervalues rt d) as [l|?| |]; simpl; try discriminate.
-  apply negb_false_iff in G'. destruct (consume_late rt (fun v => v) _ G') as [H1 H2].
-  rewrite mapM_sequence. split.
-  - destruct K; subst k; simpl; rewrite H1; reflexivity.
-  - apply is_other_not_type. unfold eager in H2.
-    destruct (sequence (map (unm rt E n a) l)) as [xs|e| |]; simpl in *; auto.
-    destruct (existsb (fun a0 => unhashable rt a0) xs); discriminate.
-Qed.
-
-Lemma unm_mapping_outside : forall n k kt vt x,
-  guard_u rt E (unm rt E n) (TMap k kt vt) x = false ->
-  run rt E (unm rt E n) (TMap k kt vt) (expected DU HMapping) x = Raise EType /\
-  unm rt E (S n) (TMap k kt vt) x <> Raise EType.
-Proof.
-  intros n k kt vt x G. unfold run. simpl. unfold guard_u, after_load_items, after_items in G.
-  destruct (load rt x) as [d|?| |]; simpl; try discriminate.
-  destruct (iteritems rt E d) as [l|?| |]; simpl; try discriminate.
-  apply negb_false_iff in G. destruct (consume_late rt fst _ G) as [H1 H2].
-  rewrite kv_map_eq. split.
-  - rewrite H1. reflexivity.
-  - apply is_other_not_type. unfold eager in H2. unfold construct_map.
-    destruct (sequence (map (kv_apply (unm rt E n) kt vt) l)) as [xs|e| |]; simpl in *; auto.
-    destruct (existsb (fun a0 => unhashable rt (fst a0)) xs); discriminate.
-Qed.
-
 (* ---- marshal ---- *)
 Lemma mar_iterable : forall n k a x,
   run rt E (mar rt E n) (TSeq k a) (expected DM HIterable) x = mar rt E (S n) (TSeq k a) x.
@@ -287,29 +255,13 @@ Proof.
   dres (sequence (map (mar rt E n a) l)).
 Qed.
 
-Lemma mar_mapping : forall n k kt vt x, guard_m rt E (mar rt E n) (TMap k kt vt) x = true ->
+Lemma mar_mapping : forall n k kt vt x,
   run rt E (mar rt E n) (TMap k kt vt) (expected DM HMapping) x = mar rt E (S n) (TMap k kt vt) x.
 Proof.
-  intros n k kt vt x G. unfold run. simpl. unfold guard_m, after_items in G.
-  dresn (iteritems rt E x) l. rewrite kv_map_eq.
-  apply negb_true_iff in G. rewrite (consume_eager rt fst _ G). unfold eager, construct_map.
-  dresn (sequence (map (kv_apply (mar rt E n) kt vt) l)) l0.
-  destruct (existsb _ l0); reflexivity.
-Qed.
-
-Lemma mar_mapping_outside : forall n k kt vt x,
-  guard_m rt E (mar rt E n) (TMap k kt vt) x = false ->
-  run rt E (mar rt E n) (TMap k kt vt) (expected DM HMapping) x = Raise EType /\
-  mar rt E (S n) (TMap k kt vt) x <> Raise EType.
-Proof.
-  intros n k kt vt x G. unfold run. simpl. unfold guard_m, after_items in G.
-  destruct (iteritems rt E x) as [l|?| |]; simpl; try discriminate.
-  apply negb_false_iff in G. destruct (consume_late rt fst _ G) as [H1 H2].
-  rewrite kv_map_eq. split.
-  - rewrite H1. reflexivity.
-  - apply is_other_not_type. unfold eager in H2. unfold construct_map.
-    destruct (sequence (map (kv_apply (mar rt E n) kt vt) l)) as [xs|e| |]; simpl in *; auto.
-    destruct (existsb (fun a0 => unhashable rt (fst a0)) xs); discriminate.
+  intros n k kt vt x. unfold run. simpl.
+  dresn (iteritems rt E x) l.
+  rewrite (construct_map_after rt KDict). rewrite (consume_mapM rt fst). unfold kv_apply.
+  dres (mapM (hashing rt fst (fun kv => bind (mar rt E n kt (fst kv)) (fun k' => bind (mar rt E n vt (snd kv)) (fun v' => Ok (k', v'))))) l).
 Qed.
 
 Lemma mar_tuple : forall n ts x,
@@ -336,12 +288,12 @@ Proof.
   dres (first_ok rt (map (mar rt E n) ts) x).
 Qed.
 
-Theorem mar_step : forall n t x h, head_of E t = Some h -> guard_m rt E (mar rt E n) t x = true ->
+Theorem mar_step : forall n t x h, head_of E t = Some h ->
   run rt E (mar rt E n) t (expected DM h) x = mar rt E (S n) t x.
 Proof.
-  intros n t x h H G. destruct t; simpl in H; try discriminate; try (injection H as <-).
+  intros n t x h H. destruct t; simpl in H; try discriminate; try (injection H as <-).
   - apply mar_iterable.
-  - apply mar_mapping; exact G.
+  - apply mar_mapping.
   - apply mar_tuple.
   - apply mar_union.
   - destruct (E n0) as [[cd|t']|] eqn:EC; try discriminate. injection H as <-.
@@ -363,17 +315,29 @@ Qed.
 Lemma mar_struct : forall n c cd x, E c = Some (NClass cd) ->
   run rt E (mar rt E n) (TName c) (expected DM HStruct) x = mar rt E (S n) (TName c) x.
 Proof.
-  intros n c cd x EC. apply mar_step; simpl; [rewrite EC|]; reflexivity.
+  intros n c cd x EC. apply mar_step; simpl; rewrite EC; reflexivity.
 Qed.
+
+(* ---- against the earlier formulation of Core (convert every member, then hash: Model/CoreLate.v): inside the region
+        where the orders differ the PROGRAM (the code) raises TypeError and the earlier step did not ---- *)
+Lemma unm_iterable_late_outside : forall n k a x, seq_parts rt (unm rt E n) k a x = true ->
+  run rt E (unm rt E n) (TSeq k a) (expected DU HIterable) x = Raise EType /\ CoreLate.is_other (seq_late rt (unm rt E n) k a x) = true.
+Proof. intros n k a x H. rewrite unm_iterable. apply unm_seq_outside_late; exact H. Qed.
+Lemma unm_mapping_late_outside : forall n k kt vt x, map_parts rt E (unm rt E n) kt vt x = true ->
+  run rt E (unm rt E n) (TMap k kt vt) (expected DU HMapping) x = Raise EType /\ CoreLate.is_other (map_late rt E (unm rt E n) k kt vt x) = true.
+Proof. intros n k kt vt x H. rewrite unm_mapping. apply unm_map_outside_late; exact H. Qed.
+Lemma mar_mapping_late_outside : forall n k kt vt x, mmap_parts rt E (mar rt E n) kt vt x = true ->
+  run rt E (mar rt E n) (TMap k kt vt) (expected DM HMapping) x = Raise EType /\ CoreLate.is_other (mmap_late rt E (mar rt E n) kt vt x) = true.
+Proof. intros n k kt vt x H. rewrite mar_mapping. apply mar_map_outside_late; exact H. Qed.
 
 (* ---- the same about the programs of a translated table ---- *)
 Theorem unm_step_src : forall tb, progs_agree_dir DU tb = true ->
-  forall n t x h, head_of E t = Some h -> guard_u rt E (unm rt E n) t x = true ->
+  forall n t x h, head_of E t = Some h -> guard_u E t = true ->
   run rt E (unm rt E n) t (src_prog tb DU h) x = unm rt E (S n) t x.
 Proof. intros tb A n t x h H G. rewrite (src_prog_expected_dir tb DU h A). apply unm_step; assumption. Qed.
 Theorem mar_step_src : forall tb, progs_agree_dir DM tb = true ->
-  forall n t x h, head_of E t = Some h -> guard_m rt E (mar rt E n) t x = true ->
+  forall n t x h, head_of E t = Some h ->
   run rt E (mar rt E n) t (src_prog tb DM h) x = mar rt E (S n) t x.
-Proof. intros tb A n t x h H G. rewrite (src_prog_expected_dir tb DM h A). apply mar_step; assumption. Qed.
+Proof. intros tb A n t x h H. rewrite (src_prog_expected_dir tb DM h A). apply mar_step; assumption. Qed.
 
 End Steps.
